@@ -679,7 +679,9 @@ func genFaults(c *ctx, emit func(string)) {
 			// then it is adopted by the next Open), restart, Open with an armed fault --
 			// recovery zeroes the stale bytes and fsyncs
 			sized := func(idx uint64, n int) string {
-				l := &raft.Log{Index: idx, Term: uint64(1 + r.Intn(5)), Data: bytes.Repeat([]byte{byte(1 + r.Intn(200))}, n), AppendedAt: baseTime}
+				// payload bytes that are no frame type: stale payload must not parse as frames
+				// (DESIGN fault2, finding "unverified stale commit frame")
+				l := &raft.Log{Index: idx, Term: uint64(1 + r.Intn(5)), Data: bytes.Repeat([]byte{byte(0x10 + r.Intn(200))}, n), AppendedAt: baseTime}
 				return "S 1 " + logFields(l, true)
 			}
 			next := g.last + 1
